@@ -226,18 +226,27 @@ func runCase(t *rapid.T) {
 			sp := n0.DrawSpec(t, opts, fl)
 			if bigBlocks && rapid.Bool().Draw(t, "big") {
 				sp.Txs = nil
-				if rapid.Bool().Draw(t, "manySmall") {
-					// size in NUMBER of records rather than bytes (seeded change C13-w wrote the transaction bodies of blocks with more
-					// than 64 transactions in a synced write of their own): 65-140 small transactions
+				// large in BYTES (3-12 transactions of 4-13 KB: one block batch spans several WAL blocks; seeded change C13-b split batches
+				// above 32 KiB), large in NUMBER of records (65-140 small transactions; seeded change C13-w wrote the bodies of blocks with
+				// more than 64 transactions in a synced write of their own), or both
+				switch rapid.SampledFrom([]string{"bytes", "bytes", "count", "both"}).Draw(t, "bigKind") {
+				case "bytes":
+					for j := 0; j < rapid.IntRange(3, 12).Draw(t, "bigTxs"); j++ {
+						sp.Txs = append(sp.Txs, node.MakeTx(10+j%4, uint64(i*100+j), 1000, node.TxOK, 1, rapid.IntRange(4000, 13000).Draw(t, "bigPad")))
+					}
+				case "count":
 					cnt := rapid.IntRange(65, 140).Draw(t, "manyTxs")
 					for j := 0; j < cnt; j++ {
 						sp.Txs = append(sp.Txs, node.MakeTx(10+j%4, uint64(i*1000+j), 1000, node.TxOK, 1, 0))
 					}
 					fl["many-transactions"] = true
-				} else {
-					for j := 0; j < rapid.IntRange(3, 12).Draw(t, "bigTxs"); j++ {
-						sp.Txs = append(sp.Txs, node.MakeTx(10+j%4, uint64(i*100+j), 1000, node.TxOK, 1, rapid.IntRange(4000, 13000).Draw(t, "bigPad")))
+				default:
+					cnt := rapid.IntRange(65, 140).Draw(t, "manyTxs")
+					pad := rapid.IntRange(400, 900).Draw(t, "manyPad")
+					for j := 0; j < cnt; j++ {
+						sp.Txs = append(sp.Txs, node.MakeTx(10+j%4, uint64(i*1000+j), 1000, node.TxOK, 1, pad))
 					}
+					fl["many-transactions"] = true
 				}
 				fl["big-batch"] = true
 				fl["txs"] = true
